@@ -39,6 +39,38 @@ class SimInterrupt(KeyboardInterrupt):
     """Injected at a statement boundary of library code (Ctrl-C / 'interrupt kernel')."""
 
 
+class SimMemoryError(MemoryError):
+    """failing allocation at a statement boundary of library code"""
+
+
+class SimKeyError(KeyError):
+    """an exception of a class the library itself handles in places (except KeyError: ...)"""
+
+
+class SimTypeError(TypeError):
+    pass
+
+
+class SimOSError(OSError):
+    pass
+
+
+class SimLinAlgError(Exception):
+    pass
+
+
+def _linalg_class():
+    import numpy as np
+
+    class SimLinAlg(np.linalg.LinAlgError):
+        pass
+    return SimLinAlg
+
+
+INJECTED = {"interrupt": lambda: SimInterrupt, "memory": lambda: SimMemoryError, "key": lambda: SimKeyError,
+            "type": lambda: SimTypeError, "os": lambda: SimOSError, "linalg": _linalg_class}
+
+
 class Skip(Exception):
     """step could not run because a consumed handle does not exist (its producer failed / was cut)."""
 
@@ -157,7 +189,8 @@ class Seam:
 
 # --------------------------------------------------------------------------- interrupts
 class Tracer:
-    def __init__(self, k):
+    def __init__(self, k, exc="interrupt"):
+        self.exc = INJECTED.get(exc, INJECTED["interrupt"])()
         self.k = k
         self.count = 0
         self.fired_at = None
@@ -173,7 +206,7 @@ class Tracer:
             self.count += 1
             if self.count == self.k:
                 self.fired_at = (os.path.relpath(frame.f_code.co_filename, SRC), frame.f_lineno)
-                raise SimInterrupt()
+                raise self.exc()
         return self.local_trace
 
 
@@ -211,7 +244,7 @@ def exec_step(ctx, step, host=None):
         rec["saw"] = ctx.disk.seen_state(path_r)
     try:
         if fault and fault.get("kind") == "interrupt":
-            tracer = Tracer(int(fault["k"]))
+            tracer = Tracer(int(fault["k"]), fault.get("exc", "interrupt"))
             old = sys.gettrace()
             sys.settrace(tracer.global_trace)
             try:
@@ -223,7 +256,7 @@ def exec_step(ctx, step, host=None):
     except Skip as e:
         res = None
         status = "skip"
-    except SimInterrupt:
+    except (SimInterrupt, SimMemoryError, SimKeyError, SimTypeError, SimOSError) as e:
         res = None
         status = "interrupted"
     except RecursionError:
@@ -232,8 +265,17 @@ def exec_step(ctx, step, host=None):
         res = e
         status = "exc"
     fired = ctx.disk.disarm()
+    if tracer is not None and tracer.fired_at is not None and status != "skip":
+        # the injected exception fired: whatever the library made of it (propagated, translated into another
+        # exception, or swallowed), this step has no counterpart in a fault-free world
+        if status != "interrupted":
+            rec["after_injection"] = status if status != "exc" else "exc:" + type(res).__name__
+            ctx.probe("injected_exception_translated_or_swallowed")
+        status = "interrupted"
+        res = None
     if tracer is not None:
-        rec["interrupt"] = {"k": tracer.k, "lines": tracer.count, "at": list(tracer.fired_at) if tracer.fired_at else None}
+        rec["interrupt"] = {"k": tracer.k, "lines": tracer.count, "at": list(tracer.fired_at) if tracer.fired_at else None,
+                            "exc": fault.get("exc", "interrupt")}
         if tracer.fired_at:
             ctx.events.append(("interrupt", step["id"], tracer.fired_at))
     if fired is not None:
